@@ -9,7 +9,10 @@ from hypothesis import strategies as st
 from . import canboat, gen, wire
 
 SINGLE_KEYS = ["127250/vesselHeading", "130306/windData", "127488/engineParametersRapidUpdate", "127245/rudder", "65280/furunoHeave",
-               "59904/isoRequest", "127508/batteryStatus", "130312/temperature"]
+               "59904/isoRequest", "127508/batteryStatus", "130312/temperature",
+               # second definitions of multi-definition PGNs (a filter naming one definition must not touch its siblings)
+               "65280/0xff000xffffManufacturerProprietarySingleFrameNonAddressed", "61184/seatalkWirelessKeypadLightControl",
+               "61184/0xef00ManufacturerProprietarySingleFrameAddressed", "65285/lowranceTemperature", "65285/airmarBootStateAcknowledgment"]
 FAST_KEYS = ["129029/gnssPositionData", "126996/productInformation", "130816/0x1ff000x1ffffManufacturerSpecificFastPacketNonAddressed",
              "127489/engineParametersDynamic", "129540/gnssSatsInView"]
 MANUFACTURERS = [(1855, "Furuno"), (1857, "Simrad"), (135, "Airmar"), (137, "Maretron"), (229, "Garmin"), (2046, None)]
